@@ -12,6 +12,9 @@ extern "C" {
   extern gpusim_dim3 gpusim_blockDim, gpusim_gridDim;
   void gpusim_launch(void (*body)(void*), void *arg, gpusim_dim3 grid, gpusim_dim3 block);
   void gpusim_barrier();
+  // the launch does not respect the bound the translator declared for this kernel (__launch_bounds__ /
+  // reqd_work_group_size): on real hardware the launch fails
+  void gpusim_launch_bounds_violation(int kernel, unsigned bx, unsigned by, unsigned bz, const char *declared);
   float gpusim_atomic_add_float(float *p, float v);
   double gpusim_atomic_add_double(double *p, double v);
 }
